@@ -125,6 +125,16 @@ def run(prog: Program, rep: Report, tier: str):
         for n, t in rets:
             # returns (item[perm], perm) with the same perm
             ok = ok and t[1][0][0] == "sub" and _strip(t[1][0][2]) == _strip(t[1][1])
+        # ... and a return that applies a permutation variable which may have been drawn in this call hands it back (returning None
+        # instead makes the next item of the same batch draw a partner assignment of its own)
+        drawn_nodes = {n_ for n_, _c in draws}
+        for n, t in sa.returns():
+            if t is None or t[0] != "tuple" or len(t[1]) != 2 or t[1][1] != ("const", None):
+                continue
+            first = t[1][0]
+            if first[0] == "sub" and first[2][0] == "var" and (set(first[2][2]) & drawn_nodes or any(
+                    sa.cfg.nodes[d_].kind != "entry" and d_ in drawn_nodes for d_ in first[2][2])):
+                ok = False
         # the partner is mixed in place with the original: it must never be the original object itself
         rep.rule("G8.partner-not-aliased", "shuffle() never returns the tensor it was given (every return builds a new tensor: "
                  "clone / roll / flip / advanced indexing): the in-place mix own.mul_(L).add_(partner.mul_(1 - L)) is only a "
@@ -139,6 +149,10 @@ def run(prog: Program, rep: Report, tier: str):
                    "a new permutation is drawn only when none was given; the one used is the one returned",
                    "shuffle draws a new permutation although one was given, or returns a different permutation than the one "
                    "it applied", clause="C10.1")
+
+    # the collator reads / writes its items through ModeWrapper's mode helpers
+    from .c01 import mode_positions
+    mode_positions(prog, rep, prog.cls("ModeWrapper"), "C10.6")
 
     # ---- 2. convex form -------------------------------------------------------------------------------------------------
     rep.rule("G6.convex-mix", "every in-place mix has the form own.mul_(L).add_(partner.mul_(1 - L)) with one and the same L; "
